@@ -29,6 +29,7 @@ type Engine struct {
 	specs        *SpecSet
 	funcs        map[string][]*ssa.Function // key (type args stripped) -> functions/instances
 	loopCache    map[*ssa.Function]*loopInfo
+	ipdomCache   map[*ssa.Function]map[*ssa.BasicBlock]*ssa.BasicBlock
 	writesCache  map[*ssa.Function]map[string]*Sort
 	writesBusy   map[*ssa.Function]bool
 	typeIDs      map[string]int
@@ -79,7 +80,7 @@ func (eng *Engine) contractFor(f *ssa.Function) *FuncContract {
 func Load(repo string, patterns []string) (*Engine, error) {
 	t0 := time.Now()
 	eng := &Engine{repo: repo, typesPkgs: map[string]*types.Package{}, ssaPkgs: map[string]*ssa.Package{},
-		funcs: map[string][]*ssa.Function{}, loopCache: map[*ssa.Function]*loopInfo{},
+		funcs: map[string][]*ssa.Function{}, loopCache: map[*ssa.Function]*loopInfo{}, ipdomCache: map[*ssa.Function]map[*ssa.BasicBlock]*ssa.BasicBlock{},
 		writesCache: map[*ssa.Function]map[string]*Sort{}, writesBusy: map[*ssa.Function]bool{},
 		typeIDs: map[string]int{}, fnIDs: map[*ssa.Function]int{}, errVars: map[*Term]bool{}, unknownCalls: map[string]int{}, formats: map[string]string{}}
 	eng.fset = token.NewFileSet()
@@ -485,9 +486,16 @@ func (eng *Engine) builtinFacts(q []*Term) []*Term {
 			if x.Op == "sym" && strings.HasPrefix(x.Name, "errvar$") {
 				errs = append(errs, x)
 			}
+			if x.Op == "sym" && strings.HasPrefix(x.Name, "fn$") {
+				lits = append(lits, x)
+			}
 		})
 	}
 	for _, l := range lits {
+		if l.Op == "sym" {
+			out = append(out, Lt(l, IntLit(0, l.Sort))) // a named function is a non-nil value outside the allocation range
+			continue
+		}
 		out = append(out, Eq(App("slen", SInt, l), IntLit(int64(len(l.Name)), SInt)))
 	}
 	sort.Slice(errs, func(i, j int) bool { return errs[i].Name < errs[j].Name })
